@@ -226,3 +226,24 @@ Section Verify.
         end
     end.
 End Verify.
+
+(* ---- specification vocabulary that does not depend on the hash library ---- *)
+(* the digest is usable by the dispatch: under autodetect a "$2?$" digest needs the bound
+   _verify_bcrypt, and a 60-character one the loaded module *)
+Definition dispatch_ok (e : enc) (st : hstate) (h : pystr) : Prop :=
+  e = EAuto -> bcrypt_prefix h = true ->
+  h_vb_bound st = true /\ (h_has_bcrypt st = true \/ bcrypt_shaped h = false).
+
+(* the state's two flags as the (patched) start-up leaves them *)
+Definition flags_ok (cfg : hconfig) (st : hstate) : Prop :=
+  h_enc cfg = EAuto -> h_vb_bound st = true.
+
+Definition present (t : pystr) (sz mt : N) : hfile := {| f_text := FText t; f_size := sz; f_mtime := mt |}.
+
+(* the cached dict is what a re-read of `f` would produce *)
+Definition coherent (st : hstate) (f : hfile) : Prop :=
+  exists b, read_file false (h_has_bcrypt st) f = ROk (h_tab st) b.
+
+Definition stamp_differs (st : hstate) (f : hfile) : bool :=
+  negb (f_size f =? h_size st) || negb (f_mtime f =? h_mtime st).
+
